@@ -37,7 +37,9 @@ BreakerTypeOK == B!BTypeOK(pcfg.bc, p.b)
 NoPhantomProbe == (p.ph = "idle") => ~p.b.probe
 RefInSync == pm.r.phase = p.b.st
 
-Terminal == p.ph = "idle" /\ p.ncall = NCalls
+\* (with direct breaker operations configured: once they have all been performed, so that a
+\* behaviour is not exported again with every operation appended to it)
+Terminal == p.ph = "idle" /\ p.ncall = NCalls /\ p.next = pcfg.next
 ExportBehaviours ==
     (RecordHist /\ Terminal) => PrintT(<<"BEH", ToJson([c |-> cid, h |-> hist])>>)
 
@@ -70,13 +72,13 @@ OutsPolicySmall == {Out("ok", "-", None), Out("exc", T, None), Out("exc", U, Non
 
 PConfigsA ==
     { [retry |-> rt, rc |-> [RBase EXCEPT !.abort = ab, !.handler = ha, !.maxAtt = ma, !.hooks = hk],
-       bc |-> BCfg(th, 4, 2)] :
+       bc |-> BCfg(th, 4, 2), ext |-> {}, next |-> 0] :
         rt \in BOOLEAN, ab \in BOOLEAN, ha \in BOOLEAN, ma \in {1, 2}, th \in {1, 2}, hk \in BOOLEAN }
 PConfigsC07 ==
-    { [retry |-> rt, rc |-> [RBase EXCEPT !.maxAtt = 2], bc |-> BCfg(th, 4, r)] :
+    { [retry |-> rt, rc |-> [RBase EXCEPT !.maxAtt = 2], bc |-> BCfg(th, 4, r), ext |-> {}, next |-> 0] :
         rt \in BOOLEAN, th \in {1, 2}, r \in {2, 3} }
 PConfigsC07x ==
-    { [retry |-> rt, rc |-> [RBase EXCEPT !.maxAtt = 1], bc |-> BCfg(th, 4, r)] :
+    { [retry |-> rt, rc |-> [RBase EXCEPT !.maxAtt = 1], bc |-> BCfg(th, 4, r), ext |-> {}, next |-> 0] :
         rt \in BOOLEAN, th \in {1, 2}, r \in {2, 3} }
 \* (P: a failure of a class the breaker does not count, and that the loop never retries)
 OutsC07x == {Out("ok", "-", None), Out("exc", T, None), Out("exc", U, None), Out("exc", P, None)}
@@ -84,11 +86,22 @@ OutsC07 == {Out("ok", "-", None), Out("exc", T, None), Out("exc", U, None), Out(
             Out("abort", "-", None)}
 PConfigsC15 ==
     { [retry |-> rt, rc |-> [RBase EXCEPT !.maxAtt = 2, !.handler = ha, !.bsleep = TRUE],
-       bc |-> BCfg(1, 4, 2)] : rt \in BOOLEAN, ha \in BOOLEAN }
+       bc |-> BCfg(1, 4, 2), ext |-> {}, next |-> 0] : rt \in BOOLEAN, ha \in BOOLEAN }
 \* attempt hooks: on every policy without a retry component, and on the plainest one with
 PConfigsX ==
     { c \in { [retry |-> rt, rc |-> [RBase EXCEPT !.abort = ab, !.maxAtt = 2, !.handler = ha, !.hooks = hk],
-               bc |-> BCfg(th, 4, 2)] :
+               bc |-> BCfg(th, 4, 2), ext |-> {}, next |-> 0] :
                rt \in BOOLEAN, ab \in BOOLEAN, th \in {1, 2}, ha \in BOOLEAN, hk \in BOOLEAN } :
         c.rc.hooks => (IF c.retry THEN ~c.rc.abort /\ ~c.rc.handler ELSE ~c.rc.handler) }
+\* the breaker is shared with users who call it directly between the policy calls
+ExtAll == {[op |-> "allow", k |-> "-"], [op |-> "ok", k |-> "-"], [op |-> "fail", k |-> T],
+           [op |-> "cancel", k |-> "-"]}
+PConfigsExt ==
+    { [retry |-> rt, rc |-> [RBase EXCEPT !.maxAtt = 1], bc |-> BCfg(1, 4, 2), ext |-> ExtAll, next |-> 2] :
+        rt \in BOOLEAN }
+PConfigsExtX ==
+    { [retry |-> rt, rc |-> [RBase EXCEPT !.maxAtt = 1], bc |-> BCfg(1, 4, 2),
+       ext |-> {[op |-> "allow", k |-> "-"], [op |-> "fail", k |-> T], [op |-> "ok", k |-> "-"]}, next |-> 1] :
+        rt \in BOOLEAN }
+OutsExt == {Out("ok", "-", None), Out("exc", T, None)}
 =============================================================================
